@@ -65,6 +65,9 @@ pub enum C13 {
     },
     /// raw `write_all` history on one cursor kind against the bounded-buffer model
     Raw { sink: Sink, cap: u32, writes: Vec<u32> },
+    /// raw `write_all` history on a boxed cursor whose buffer the caller exchanges for a larger one (same content) through
+    /// `Cursor::get_mut()` after write number `at`: the position stays, the room grows
+    Regrow { cap: u32, new_cap: u32, at: u32, writes: Vec<u32> },
     /// a long stream through ONE io adapter: `count` byte strings of `chunk` bytes into a device that accepts everything
     /// (at most `piece` bytes per call, 0 = no bound) and only counts -- cumulative counters beyond 2^32 bytes
     Stream { chunk: u32, count: u32, piece: u32 },
@@ -508,9 +511,9 @@ fn run_encode(values: &[ValSpec], only_sink: Option<Sink>, only_cap: Option<u32>
         let _ = minicbor::to_vec(FailEncode { partial: 3 });
         let mut tv = Vec::new();
         for v in values {
-            match reference_encoding(v) {
+            match to_vec_of(v) {
                 Some(b) => tv.extend_from_slice(&b),
-                None => return Ok(()),
+                None => fail!("fit_iff", "to_vec refused a value that the recording sink and a plain Vec accept"),
             }
         }
         if tv != reference {
@@ -753,6 +756,47 @@ fn run_encode(values: &[ValSpec], only_sink: Option<Sink>, only_cap: Option<u32>
     Ok(())
 }
 
+fn run_regrow(cap: usize, new_cap: usize, at: usize, writes: &[u32], obs: &Rc<RefCell<Obs>>) -> Result<(), Violation> {
+    let new_cap = new_cap.max(cap);
+    let mut cur = Cursor::new(vec![PATTERN; cap].into_boxed_slice());
+    let mut model: Vec<u8> = Vec::new();
+    let mut room = cap;
+    for (i, l) in writes.iter().enumerate() {
+        if i == at {
+            let bigger = {
+                let old = cur.get_ref();
+                let mut b = vec![PATTERN; new_cap];
+                b[..old.len()].copy_from_slice(old);
+                b.into_boxed_slice()
+            };
+            *cur.get_mut() = bigger;
+            room = new_cap;
+            obs.borrow_mut().event(27, new_cap as u64);
+        }
+        let buf = vec![(i as u8).wrapping_add(1); *l as usize];
+        let ok = cur.write_all(&buf).is_ok();
+        let fits = model.len() + buf.len() <= room;
+        obs.borrow_mut().event(if ok { 1 } else { 2 }, *l as u64);
+        if !fits {
+            obs.borrow_mut().fault(fk::sink_full);
+            obs.borrow_mut().nontrivial = true;
+        }
+        if ok != fits {
+            fail!("raw_write_model", "box_cursor cap={cap} (buffer exchanged for {new_cap} bytes before write #{at}): write_all #{i} of {l} bytes at position {} returned {}", model.len(), if ok { "Ok" } else { "Err" });
+        }
+        if fits {
+            model.extend_from_slice(&buf);
+        }
+        if cur.position() != model.len() {
+            fail!("raw_write_model", "box_cursor cap={cap} (buffer exchanged): after write_all #{i} position is {}, accepted bytes are {}", cur.position(), model.len());
+        }
+        if cur.get_ref()[..model.len()] != model[..] {
+            fail!("raw_write_model", "box_cursor cap={cap} (buffer exchanged): after write_all #{i} the accepted bytes were altered");
+        }
+    }
+    Ok(())
+}
+
 /// A device with unlimited room that counts what it is given and keeps nothing.
 struct CountingDevice {
     taken: u64,
@@ -926,6 +970,12 @@ impl Scenario for C13 {
                 .set("sink", sink.map(|s| s.name()))
                 .set("cap", *cap)
                 .set("io_seed", *io_seed),
+            C13::Regrow { cap, new_cap, at, writes } => Json::obj()
+                .set("kind", "regrow")
+                .set("cap", *cap)
+                .set("new_cap", *new_cap)
+                .set("at", *at)
+                .set("writes", Json::Arr(writes.iter().map(|w| Json::from(*w)).collect())),
             C13::Stream { chunk, count, piece } => Json::obj().set("kind", "stream").set("chunk", *chunk).set("count", *count).set("piece", *piece),
             C13::Raw { sink, cap, writes } => {
                 Json::obj().set("kind", "raw").set("sink", sink.name()).set("cap", *cap).set("writes", Json::Arr(writes.iter().map(|w| Json::from(*w)).collect()))
@@ -939,6 +989,12 @@ impl Scenario for C13 {
                 sink: j.get("sink").and_then(|s| s.as_str()).and_then(Sink::parse),
                 cap: j.get("cap").and_then(|c| c.as_u64()).map(|c| c as u32),
                 io_seed: j.get("io_seed").and_then(|c| c.as_u64()).unwrap_or(0),
+            }),
+            Some("regrow") => Ok(C13::Regrow {
+                cap: j.get("cap").and_then(|c| c.as_u64()).ok_or("cap")? as u32,
+                new_cap: j.get("new_cap").and_then(|c| c.as_u64()).ok_or("new_cap")? as u32,
+                at: j.get("at").and_then(|c| c.as_u64()).ok_or("at")? as u32,
+                writes: j.get("writes").and_then(|v| v.as_arr()).ok_or("writes")?.iter().map(|w| w.as_u64().map(|x| x as u32).ok_or("write")).collect::<Result<_, _>>()?,
             }),
             Some("stream") => Ok(C13::Stream {
                 chunk: j.get("chunk").and_then(|c| c.as_u64()).ok_or("chunk")? as u32,
@@ -959,6 +1015,7 @@ impl Scenario for C13 {
             C13::Encode { values, sink, cap, io_seed } => run_encode(values, *sink, *cap, *io_seed, &shared)
                 .map_err(|v| v.key(format!("types={}", values.iter().map(|v| v.ty.name()).collect::<Vec<_>>().join("+")))),
             C13::Raw { sink, cap, writes } => run_raw(*sink, *cap as usize, writes, &shared).map_err(|v| v.key(format!("raw sink={}", sink.name()))),
+            C13::Regrow { cap, new_cap, at, writes } => run_regrow(*cap as usize, *new_cap as usize, *at as usize, writes, &shared).map_err(|v| v.key("regrow".to_string())),
             C13::Stream { chunk, count, piece } => run_stream(*chunk as usize, *count, *piece as usize, &shared).map_err(|v| v.key("stream".to_string())),
         };
         *obs = shared.replace(Obs::new());
@@ -1003,6 +1060,22 @@ impl Scenario for C13 {
                 }
                 if *io_seed != 0 {
                     out.push(C13::Encode { values: values.clone(), sink: *sink, cap: *cap, io_seed: 0 });
+                }
+            }
+            C13::Regrow { cap, new_cap, at, writes } => {
+                crate::c15::shrink_vec(writes, |w| out.push(C13::Regrow { cap: *cap, new_cap: *new_cap, at: (*at).min(w.len() as u32), writes: w }));
+                for (i, w) in writes.iter().enumerate() {
+                    if *w > 0 {
+                        let mut ws = writes.clone();
+                        ws[i] = w - 1;
+                        out.push(C13::Regrow { cap: *cap, new_cap: *new_cap, at: *at, writes: ws });
+                    }
+                }
+                if *new_cap > *cap {
+                    out.push(C13::Regrow { cap: *cap, new_cap: new_cap - 1, at: *at, writes: writes.clone() });
+                }
+                if *cap > 0 {
+                    out.push(C13::Regrow { cap: cap - 1, new_cap: *new_cap, at: *at, writes: writes.clone() });
                 }
             }
             C13::Stream { chunk, count, piece } => {
@@ -1050,6 +1123,17 @@ impl Property for P13 {
                 }
             }
         }
+        // a boxed cursor whose buffer is exchanged for a larger one after the first / second write
+        for cap in 0..=5u32 {
+            for extra in 1..=3u32 {
+                for a in 0..=cap + 1 {
+                    for b in 0..=cap + extra + 1 {
+                        out.push(C13::Regrow { cap, new_cap: cap + extra, at: 1, writes: vec![a, b] });
+                        out.push(C13::Regrow { cap, new_cap: cap + extra, at: 2, writes: vec![a, 1, b] });
+                    }
+                }
+            }
+        }
         // more than 4 GiB through one io adapter (the device only counts): cumulative 32-bit byte counters
         out.push(C13::Stream { chunk: 32 << 20, count: 130, piece: 0 });
         out.push(C13::Stream { chunk: (1 << 20) + 1, count: 4100, piece: 65_536 });
@@ -1081,6 +1165,13 @@ impl Property for P13 {
     }
 
     fn generate(r: &mut Rng, tier: Tier) -> C13 {
+        if r.chance(1, 40) {
+            let cap = r.below(120) as u32;
+            let n = r.usize_in(2, 10);
+            let new_cap = cap + 1 + r.below(120) as u32;
+            let writes = (0..n).map(|_| match r.below(3) { 0 => r.below(4) as u32, 1 => r.below(new_cap as u64 + 2) as u32, _ => (new_cap / n as u32) + r.below(3) as u32 }).collect();
+            return C13::Regrow { cap, new_cap, at: r.below(n as u64 + 1) as u32, writes };
+        }
         if r.chance(1, 5) {
             let sink = *r.pick(&[Sink::Slice, Sink::SliceCursor, Sink::ArrayCursor, Sink::BoxCursor]);
             let cap = if sink == Sink::ArrayCursor { r.below(73) as u32 } else { r.below(200) as u32 };
